@@ -209,7 +209,6 @@ func c14Run(r *Run, depth, shard int) {
 	bfs.Explore(r)
 }
 
-
 // c14PublicUnchanged: after a rolled-back transaction the state as seen through
 // export, queries (incl. the used-nonce query for the probed nonce) must equal
 // the pre-state -- not only the raw stores.
